@@ -334,14 +334,14 @@ def write(
                 # choose behavior and write...
                 if data is root:
                     # ...if the data is the root
-                    if tree is True:
+                    if tree is False:
+                        pass
+                    else:
                         _append_branch(
                             rootgroup,
                             data,
                             appendover
                         )
-                    else:
-                        pass
                 else:
                     where = _validate_treepath(
                         rootgroup,
